@@ -7,7 +7,7 @@ from geom import fd_glyphs_json
 from ufo import build, rat
 
 ID = "C01"
-PROOF_FILES = ["Geom", "Reverse", "Render", "RenderExact", "GoodCert", "C01"]
+PROOF_FILES = ["Geom", "Reverse", "Render", "RenderExact", "GoodCert", "C01", "C01Skip"]
 THEOREM = "Ufo2ft.C01.C01_outline / C01_round / C01_advance (+ shared Geom/Reverse/Render theorems)"
 N = {"quick": 250, "thorough": 5000}
 RULE = ("random fonts: closed contours of line / cubic / quadratic segments on a 1/8 grid with 30% half-integer and 25% negative "
